@@ -3,6 +3,7 @@ package cmd
 import (
 	"fmt"
 	"net/netip"
+	"reflect"
 
 	"github.com/AdguardTeam/golibs/timeutil"
 )
@@ -10,7 +11,16 @@ import (
 // validatePositive returns an error if v is not a positive number.  prop is the
 // name of the property being checked, used for error messages.
 func validatePositive[T numberOrDuration](prop string, v T) (err error) {
-	if d, ok := any(v).(timeutil.Duration); ok && d.Duration <= 0 {
+	var isPositive bool
+	if d, ok := any(v).(timeutil.Duration); ok {
+		isPositive = d.Duration > 0
+	} else {
+		// T is one of the integer types here, see [numberOrDuration].
+		rv := reflect.ValueOf(v)
+		isPositive = (rv.CanInt() && rv.Int() > 0) || (rv.CanUint() && rv.Uint() > 0)
+	}
+
+	if !isPositive {
 		return newNotPositiveError(prop, v)
 	}
 
